@@ -57,9 +57,9 @@ var properties = map[string]propSpec{
 	"C11": {Rules: rl{ruleLeaveComplete, ruleRelaySync, rulePairedState, rulePBNil, ruleSnapshot, ruleAnswers, ruleOwnerGuard, ruleFramePair, ruleIDGenerator, ruleMutateRelay, ruleFlagWrap, ruleLeaveCallers}, Keep: kp{"E1", "C6", "E9", "G1", "C11-pose", "B5", "B7", "D1", "E6", "D3", "C1", "C4c", "E2"}, Sites: map[string][]string{"E1": {"emptiness-test", "count-after-remove", "registry"}}},
 	"C12": {Rules: rl{ruleAcceptedPerforms, ruleJoinedGuard, rulePairedState, ruleStoreContracts, ruleCascade, ruleErrorDiscipline, ruleSplitCriticalSection, ruleLeaveComplete, ruleArgRoles, ruleAnswers, ruleMutateRelay, ruleFunnelOnce}, Keep: kp{"B9", "J2", "E9", "S-", "D4", "E4", "ERR", "E8a", "E1", "B10", "B5", "C1", "E5", "G5"}, Sites: map[string][]string{"B5": {"EntityComponent"}, "C1": {"EntityComponent"}}},
 	"C13": {Rules: rl{ruleRelaySync, ruleAcceptedPerforms, ruleNotifyGated, ruleSenderExcluded, ruleSubscriptions, ruleLeaveComplete, ruleArgRoles, ruleBroadcastShape, ruleGuardedBy, ruleLeaveCallers, ruleFramePair}, Keep: kp{"C6", "B9", "C5", "C2", "S-", "E1", "B10", "C3", "F1", "E2", "E6"}, Sites: map[string][]string{"F1": {"EntityComponentStore.subscriptions"}}},
-	"C14": {Rules: rl{rulePairedState, ruleBroadcastShape, ruleSenderExcluded, ruleCustomMessage, ruleRelaySync, ruleGuardedBy, ruleMembershipContracts, ruleDecoratorForward, ruleFrameLimit}, Keep: kp{"E9", "C3", "J6", "C2", "H1", "H4", "C6", "F1", "S-Members", "A2", "G8"}, Sites: map[string][]string{"F1": {"Session."}}},
+	"C14": {Rules: rl{rulePairedState, ruleBroadcastShape, ruleSenderExcluded, ruleCustomMessage, ruleRelaySync, ruleGuardedBy, ruleMembershipContracts, ruleDecoratorForward, ruleFrameLimit, ruleLeaveCallers}, Keep: kp{"E9", "C3", "J6", "C2", "H1", "H4", "C6", "F1", "S-Members", "A2", "G8", "E2"}, Sites: map[string][]string{"F1": {"Session."}}},
 	"C15": {Rules: rl{ruleAuthGate}, Keep: kp{"I6"}},
-	"C16": {Rules: rl{ruleEntityActions, ruleSnapshot, ruleOwnerGuard, ruleModuleInit, ruleModuleCleanup, ruleRelaySync, ruleLeaveComplete, ruleNoGlobalSessionData}, Keep: kp{"H3", "S-", "D5", "C7", "D1", "J4", "J3", "E3", "C6", "E1", "J5"}, Sites: map[string][]string{"E1": {"entity-loop", "modules-told"}}},
+	"C16": {Rules: rl{ruleEntityActions, ruleSnapshot, ruleOwnerGuard, ruleModuleInit, ruleModuleCleanup, ruleRelaySync, ruleLeaveComplete, ruleNoGlobalSessionData, ruleMutateRelay}, Keep: kp{"H3", "S-", "D5", "C7", "D1", "J4", "J3", "E3", "C6", "E1", "J5", "C1"}, Sites: map[string][]string{"E1": {"entity-loop", "modules-told"}}},
 	"C17": {Rules: rl{ruleFlagWrap}},
 	"C18": {Rules: rl{ruleLatencyStart, ruleLatencyReport, ruleMapOrderFree, ruleAnswers, rulePairedState}, Keep: kp{"H2", "I1", "I2", "I3", "I4", "B1", "B2", "B4", "B7", "E9"}, Sites: map[string][]string{"B": {"HandleSignedLatency", "HandlePingResponse"}, "E9": {"signedLatency"}}},
 	"C19": {Rules: rl{ruleReceiptFlow, ruleAnswers, ruleRelaySync, ruleNoGlobalSessionData}, Keep: kp{"I5", "B1", "B2", "B4", "C6", "J5"}, Sites: map[string][]string{"B": {"HandleReceipt"}, "J5": {"receipt"}}},
